@@ -2680,6 +2680,14 @@ void Analyser::AnalyserImpl::analyseModel(const ModelPtr &model)
                 description += " variable of integration which cannot be used as an external variable.";
 
                 referenceRule = Issue::ReferenceRule::ANALYSER_EXTERNAL_VARIABLE_VOI;
+
+                // The variable of integration cannot be used as an external
+                // variable, so stop treating it as such.
+
+                auto voiInternalVariable = Analyser::AnalyserImpl::internalVariable(primaryExternalVariable.first);
+
+                voiInternalVariable->mIsExternal = false;
+                voiInternalVariable->mDependencies.clear();
             } else {
                 description += (equivalentVariableCount == 1) ?
                                    " is marked as an external variable, but it is not a primary variable." :
